@@ -17,6 +17,7 @@ package udphop
 //	racehop <listenOk>     hop() whose timer fired before Close but which runs after it
 //	write <n> | recv <k> <hex> | rtimeout <k> | flood <k> <n> | read <blen>
 //	setdl|setrdl|setwdl <t> | setrbuf|setwbuf <n> | addr | socks | close | end
+//	closeinlisten <listenOk>   hop() during whose ListenUDPFunc call Close() is issued
 //	interval <minNs> <maxNs> | jitter <rseed> <minNs> <maxNs>
 //
 // Model-free oracle (after every operation, on the fakes and the real struct only):
@@ -36,6 +37,7 @@ import (
 	"runtime"
 	"strings"
 	"sync"
+	"sync/atomic"
 	"testing"
 	"testing/synctest"
 	"time"
@@ -236,6 +238,8 @@ type hopComp struct {
 	failNext   bool
 	listens    int
 	lastListen time.Time
+	armClose   bool       // the next ListenUDPFunc call starts Close() on the connection from inside
+	closeDone  chan error // result of that Close()
 
 	conn      *udpHopPacketConn
 	closed    bool // Close() has returned on conn
@@ -263,6 +267,29 @@ func timeOf(v int64) time.Time {
 }
 
 func (c *hopComp) listen() (net.PacketConn, error) {
+	c.mu.Lock()
+	arm := c.armClose
+	c.armClose = false
+	c.mu.Unlock()
+	if arm {
+		// Close() arrives while the hop is inside ListenUDPFunc.  It is given every chance to
+		// run (it cannot be waited for with synctest.Wait: blocking on the connection mutex,
+		// which is what the correct code does, is not a durable block).
+		conn := c.conn
+		ch := make(chan error, 1)
+		var fin atomic.Bool
+		go func() {
+			err := conn.Close()
+			fin.Store(true)
+			ch <- err
+		}()
+		for i := 0; i < 20000 && !fin.Load(); i++ {
+			runtime.Gosched()
+		}
+		c.mu.Lock()
+		c.closeDone = ch
+		c.mu.Unlock()
+	}
 	c.mu.Lock()
 	defer c.mu.Unlock()
 	c.listens++
@@ -326,6 +353,8 @@ func (c *hopComp) cleanup() {
 	c.writes = nil
 	c.listens = 0
 	c.failNext = false
+	c.armClose = false
+	c.closeDone = nil
 	c.mu.Unlock()
 }
 
@@ -716,6 +745,77 @@ func (c *hopComp) Run(op string) (res vh.Result) {
 		if f[0] == "racehop" && out != "hop closed" {
 			fails = append(fails, "a hop that ran after Close() returned opened or touched sockets")
 		}
+	case "closeinlisten":
+		// Close() is called while hop() is inside ListenUDPFunc (hop invoked directly: the timer
+		// has just fired).  Whatever the interleaving, once both have returned every socket
+		// must be closed.  Correct code: Close waits for the mutex, so this is `hop ; close`.
+		listenOk := f[1] == "1"
+		if c.closed {
+			out, mop = "idle", "idle"
+			break
+		}
+		c.conn.connMutex.RLock()
+		prevB := c.conn.prevConn
+		c.conn.connMutex.RUnlock()
+		c.mu.Lock()
+		listensBefore := c.listens
+		c.failNext = !listenOk
+		c.armClose = true
+		c.closeDone = nil
+		c.mu.Unlock()
+		var hopPanic any
+		func() {
+			defer func() { hopPanic = recover() }()
+			c.conn.hop(time.Second)
+		}()
+		synctest.Wait()
+		c.mu.Lock()
+		c.failNext = false
+		c.armClose = false
+		done := c.closeDone
+		c.closeDone = nil
+		listens := c.listens
+		c.mu.Unlock()
+		var cerr error
+		if done != nil {
+			select {
+			case cerr = <-done:
+			default:
+				fails = append(fails, "a Close() issued while hop() was inside ListenUDPFunc never returned")
+			}
+		} else {
+			cerr = c.conn.Close() // listen was not called at all
+			synctest.Wait()
+		}
+		c.closed = true
+		idx := c.conn.addrIndex
+		switch {
+		case hopPanic != nil:
+			out = "panic"
+			fails = append(fails, "hop() racing Close() panicked: "+strings.ReplaceAll(fmt.Sprint(hopPanic), "\n", " "))
+		case listens == listensBefore:
+			out = "hop closed"
+		case !listenOk:
+			out = "hop listenerr"
+		default:
+			closedNow := "-"
+			if fs, ok := prevB.(*fakeSock); ok && fs != nil {
+				closedNow = fmt.Sprint(fs.id)
+			}
+			out = fmt.Sprintf("hop new=%d closed=%s", c.nsocks()-1, closedNow)
+		}
+		mop = fmt.Sprintf("hop %s %d ; close", b2s(listenOk), idx)
+		if cerr == nil {
+			out += " ; close ok"
+		} else {
+			out += " ; close err"
+		}
+		if r, done := c.pendingDone(); done {
+			out += " ; " + c.readOutcome(r, c.pendBlen, &fails)
+			mop += fmt.Sprintf(" ; readSelect 0 %d", c.pendBlen)
+		} else if c.pending != nil {
+			fails = append(fails, "Close() did not unblock a parked ReadFrom")
+		}
 	case "write":
 		n := int(atoi(f[1]))
 		c.mu.Lock()
@@ -1084,12 +1184,20 @@ func (c *hopComp) Gen(r *vh.RNG, n int, emit func(op string, tags ...string)) {
 					e("racehop "+[]string{"1", "1", "0"}[r.Intn(3)], "racehop")
 				}
 			default:
-				e("close", "close")
+				if r.Chance(1, 3) {
+					e("closeinlisten "+[]string{"1", "1", "1", "0"}[r.Intn(4)], "closeinlisten")
+				} else {
+					e("close", "close")
+				}
 				closed = true
 			}
 		}
 		if r.Bool() && !closed {
-			e("close", "close")
+			if r.Chance(1, 3) {
+				e("closeinlisten "+[]string{"1", "1", "1", "0"}[r.Intn(4)], "closeinlisten")
+			} else {
+				e("close", "close")
+			}
 			closed = true
 			e("racehop 1", "racehop")
 			e(fmt.Sprintf("read %d", blen()), "read-after-close")
